@@ -29,6 +29,7 @@ def ascii85decode(data: bytes) -> bytes:
 
 
 bws_re = re.compile(rb"[\s\x00]")
+nonhex_re = re.compile(rb"[^0-9a-fA-F]")
 
 
 def asciihexdecode(data: bytes) -> bytes:
@@ -44,6 +45,9 @@ def asciihexdecode(data: bytes) -> bytes:
     idx = data.find(b">")
     if idx != -1:
         data = data[:idx]
-        if idx % 2 == 1:
-            data += b"0"
+    if nonhex_re.search(data):
+        # corrupted data: decode the hexadecimal digits that are there
+        data = nonhex_re.sub(b"", data)
+    if len(data) % 2 == 1:
+        data += b"0"
     return unhexlify(data)
